@@ -96,6 +96,21 @@ def c03(run):
         if first_word(r) in ('crash', 'hang', 'bad'):
             run.fail({'request': 'val %s %s %s' % (op, a, b), 'answer': r}, 'a value operation panics: ' + r[:40])
     run.extra['exhaustive'] = True
+    # build / knock with SEVERAL steps in one statement is one addition of +-k (not k additions of +-1): every value, k = 2, 3, 5
+    bk_src, bk_meta = [], []
+    for a in U:
+        for k in (2, 3, 5):
+            for kw, kw2 in (('build', 'up'), ('knock', 'down')):
+                stmts = progs.setup_value(a, sv('vv'))
+                try:
+                    text = progs.render(rng, [stmts], plain=True)
+                except Exception:
+                    continue
+                text += '%s vv %s\nsay vv\n' % (kw, ', '.join([kw2] * k))
+                bk_src.append(text); bk_meta.append((a, k, kw))
+    bkm, bki = run.tie([run_req(t) for t in bk_src], proj=proj_run, functional=True, desc=lambda i: {'program': bk_src[i], 'section': 'multi-step build/knock'})
+    for t in bk_src:
+        run.case(('bk', t), True, op='build-knock-steps')
     # (i') the number instance of the model itself: Display and FromStr of the model's f64 against Rust's,
     # on boundaries and random bit patterns (this validation is part of the trusted base, DESIGN §3.2)
     nb = run.n(3000, 60000)
@@ -324,7 +339,22 @@ def effect_programs(rng, U):
         a, b, c = rng.choice(small), rng.choice(small), rng.choice(small)
     A, B, C_, D, F, P = sv('aa'), sv('bb'), sv('cc'), sv('dd'), sv('ff'), sv('pp')
     pre = progs.setup_value(a, A) + progs.setup_value(b, B) + progs.setup_value(c, C_)
-    shape = rng.choice(['var', 'var', 'cell', 'cell-replaced', 'two-operands', 'unset'])
+    shape = rng.choice(['var', 'var', 'cell', 'cell-replaced', 'two-operands', 'unset', 'pronoun', 'pronoun'])
+    if shape == 'pronoun':
+        # the destination is a PRONOUN and the operands name another variable / call a function (the referent moves while the
+        # operands are evaluated): both forms must still agree
+        IT = ('pronoun', 'it')
+        operands = rng.choice([[v(B)], [call(F, v(B))], [v(B), v(C_)], [num(2)]])
+        func = ('func', F, [P], [('return', v(P), False, False)])
+        init = [put(v(A), D)]
+        comp = ('assign', ('lid', IT), op, operands, 'let')
+        expd = ('assign', ('lid', IT), None, [('bin', op, ('id', IT), operands)], 'let')
+        tail = [say(st('after')), say(v(D)), say(v(B)), say(v(C_))]
+        seed = rng.random()
+        import random as _r
+        p1 = progs.render(_r.Random(seed), [[func], pre + init + [comp] + tail], plain=True)
+        p2 = progs.render(_r.Random(seed), [[func], pre + init + [expd] + tail], plain=True)
+        return p1, p2, shape
     if shape in ('var', 'two-operands', 'unset'):
         body = [put(v(C_), D), ('return', v(P), False, False)]
         init = [] if shape == 'unset' else [put(v(A), D)]
@@ -1275,7 +1305,7 @@ def c05(run):
                 'loops/ifs, block locals, pronoun reads, calls nested in arguments, error calls (wrong arity, non-function, unknown name, '
                 'leaked local); metamorphic oracles on the implementation: an unused extra parameter+argument changes nothing, wrapping '
                 'statements that bind no new name in `if true` changes nothing; EVERY function body of up to 2 (quick) / 3 (thorough) statements '
-                'over a 29-shape vocabulary x 9 observations, also with every name proper (a confusable family) / common, tied to the model; non-trivial = at least 2 calls executed; distinct by program text')
+                'over a 32-shape vocabulary x 9 observations (and a 15-shape pronoun vocabulary under a parameter that shadows a global), also with every name proper (a confusable family) / common, tied to the model; non-trivial = at least 2 calls executed; distinct by program text')
     cases = []
     for i in range(n):
         fg = Funcs(rng)
@@ -1330,6 +1360,12 @@ def c05(run):
         for body in itertools.product(SCOPE_BODY, repeat=k):
             for obs in SCOPE_OBS:
                 sc.append(SCOPE_PRE + 'ff takes pp\n' + ''.join(b + '\n' for b in body) + 'give back pp with 100\n\n' + SCOPE_CALL + obs + '\n')
+    # the PARAMETER has the name of a global (it shadows it), and the body writes through the pronoun: the write goes to the
+    # innermost binding, as a read does
+    for k in range(0, min(L, 2) + 1):
+        for body in itertools.product(SCOPE_PRONOUN, repeat=k):
+            for obs in ('say gg\nsay hh', 'say it'):
+                sc.append('rock gg with 1, 2, 3\nput 2 into hh\nff takes gg\n' + ''.join(b + '\n' for b in body) + 'give back gg\n\nsay ff taking gg\n' + obs + '\n')
     # the same programs with every name replaced by a PROPER name (a confusable family: Jo Anna / Joan Na / Jo An Na ...) and by
     # a COMMON name: each kind of name lives in its own table of the symbol table
     import re as _re
@@ -1341,7 +1377,7 @@ def c05(run):
             w = mo.group(0)
             t = mapping[w.lower()]
             return t.upper() if w.isupper() and len(w) > 1 else t
-        pick = range(base_n) if run.tier != 'quick' else rng.sample(range(base_n), min(base_n, 1200))
+        pick = rng.sample(range(base_n), min(base_n, 1200 if run.tier == 'quick' else 15000))
         for i in pick:
             sc.append(pat.sub(ren, sc[i]))
     sreqs = [run_req(t, steps=20000) for t in sc]
@@ -1361,12 +1397,15 @@ SCOPE_BODY = ['put 10 into gg', 'put 11 into ll', 'put 12 into pp', 'say gg', 's
               'put helper taking 7 into hh', 'say helper taking pp', 'if pp is 5\nput 13 into bb\nsay bb\n', 'if pp is 5\nput 14 into gg\n',
               'say bb', 'if pp is greater than 0\nput pp minus 5 into qq\ngive back ff taking qq\n', 'while pp is greater than 0\nknock pp down\nput 15 into ww\nif pp is 2\ngive back ww\n\n',
               'say ww', 'give back gg', 'rock gg with pp', 'put pp into ll at 0', 'listen to ll', 'put ff into hh',
+              'if pp is 4\nsay 0\n', 'put 6 into it', 'give back it',
               'while pp is greater than 3\nknock pp down\nrock ww with 1\nsay ww\n\n', 'until pp is less than 4\nknock pp down\nll takes zz\ngive back zz\n\nsay ll taking pp\n\n',
               # a name resolved, then SHADOWED under another letter case (variable / nested function), then resolved again
               'put 9 into HELPER', 'HeLPer takes zz\ngive back 77\n',
               'say helper taking 1\nput 9 into HELPER\nsay helper taking 1', 'say helper taking 1\nHelper takes zz\ngive back 77\n\nsay helper taking 1',
               'say gg\nput 8 into GG\nsay gg\nsay Gg', 'say Helper taking 1\nif pp is 5\nput 9 into helper\nsay Helper taking 1\n\nsay Helper taking 2']
 SCOPE_CALL = 'say ff taking 5\n'
+SCOPE_PRONOUN = ['say gg', 'say hh', 'rock it with 9', 'roll it', 'put 7 into it', 'let it at 0 be 8', 'let it be with 1', 'say it', 'build it up', 'put it into hh',
+                 'if gg is 4\nsay 0\n', 'if hh is 2\nsay 1\n', 'ff taking hh', 'roll gg into hh', 'listen to it']
 SCOPE_PROPER = {'gg': 'Jo Anna', 'hh': 'Joan Na', 'll': 'Joa Nna', 'pp': 'Tom Sawyer', 'bb': 'Mister Crowley', 'ww': 'Doctor Feelgood', 'qq': 'Billie Jean',
                 'zz': 'J Oanna', 'ff': 'Black Sabbath', 'helper': 'Blacks Abbath', 'mm': 'Tom Saw Yer'}
 SCOPE_COMMON = {'gg': 'the night', 'hh': 'my soul', 'll': 'your love', 'pp': 'a girl', 'bb': 'the nights', 'ww': 'my night', 'qq': 'our soul',
@@ -1588,7 +1627,8 @@ def c07(run):
         ks = sorted(rng.sample(JK, rng.randint(3, 6)))
         reqs.append('val join [|%s] s2d' % ','.join('%s=%s' % (k, progs.senc('v%d' % j)) for j, k in enumerate(ks))); meta.append(('join', 'keys', None))
     nums = [0.0, 65.0, 97.0, 0x3A9, 0x10FFFF, 0x110000, 0xD800, 0xDFFF, 0xE000, -1.0, 0.5, 65.5, 1e300, progs.NAN, progs.INF, -progs.INF, 4294967296.0 + 65, -0.0,
-            2.0 ** 31 + 65, 2.0 ** 32 - 1, 2.0 ** 63, 55295.0, 57344.0, 1114111.5, 5e-324]
+            2.0 ** 31 + 65, 2.0 ** 32 - 1, 2.0 ** 63, 55295.0, 57344.0, 1114111.5, 5e-324,
+            65.00000000000001, 64.99999999999999, 110.00000000000001, 97.00000000000001, 1114111.0000000002, 1.0000000000000002]
     for x in nums:
         reqs.append('val cast %s -' % progs.nenc(float(x))); meta.append(('cast-num', x, None))
         reqs.append('val cast %s %s' % (progs.nenc(float(x)), progs.nenc(2.0))); meta.append(('cast-num-param', x, 2))
@@ -1596,10 +1636,11 @@ def c07(run):
             reqs.append('val round %s %s' % (progs.nenc(float(x)), d)); meta.append(('round', x, d))
     nstrs = ['', '0', '10', '-10', '+7', 'ff', 'FF', 'zz', '1.5', '1e3', ' 1', '1 ', 'abc', '9223372036854775807', '9223372036854775808',
              '-9223372036854775808', '-9223372036854775809', 'inf', 'nan', '-', '+', '１２', '0x10', '1_0', '.5', '5.', '1e400', '٣']
-    radices = [float(r) for r in range(-1, 41)] + [2.5, 1e10, 4294967298.0, progs.NAN, progs.INF, -0.0]
+    radices = [float(r) for r in range(-1, 41)] + [2.5, 1e10, 4294967298.0, progs.NAN, progs.INF, -0.0,
+                                                    16.000000000000004, 15.999999999999998, 10.000000000000002, 2.0000000000000004, 36.00000000000001]
     for s in nstrs:
         reqs.append('val cast %s -' % progs.senc(s)); meta.append(('cast-str', s, None))
-        for r in (radices if run.tier == 'thorough' or s in ('10', 'ff', 'zz', '-10') else rng.sample(radices, 6)):
+        for r in (radices if run.tier == 'thorough' or s in ('10', 'ff', 'zz', '-10') else rng.sample(radices, 6) + radices[-5:]):
             reqs.append('val cast %s %s' % (progs.senc(s), progs.nenc(r))); meta.append(('cast-radix', s, r))
         for other in ['u', 't', progs.senc('10'), '[|]']:
             reqs.append('val cast %s %s' % (progs.senc(s), other)); meta.append(('cast-bad-param', s, other))
@@ -1872,7 +1913,7 @@ def c15(run):
     for k in (1, 2):
         for body in itertools.product(SCOPE_BODY, repeat=k):
             pool.append(SCOPE_PRE + 'ff takes pp\n' + ''.join(b + '\n' for b in body) + 'give back pp with 100\n\n' + SCOPE_CALL + rng.choice(SCOPE_OBS) + '\n')
-    for t in rng.sample(pool, run.n(150, 3000)):
+    for t in rng.sample(pool, min(len(pool), run.n(150, 3000))):
         def rc(mo):
             w = mo.group(0)
             if w.startswith('"'):
